@@ -80,6 +80,7 @@ def check_C05(ctx, tier):
         W.rule_W_BK(ctx, d, paths)
         W.rule_W_BKRES(ctx, d, paths)
         W.rule_W_NEW(ctx, d)
+        W.rule_W_STATE(ctx, d)
         W.rule_W_CLEAR(ctx, d)
         if d.name == 'mru_cache':
             _sample_paths(ctx, d, paths, lambda o: o.kind == 'return' and any(e.kind == 'DEL' for e in o.st.events))
@@ -126,6 +127,7 @@ def check_C15(ctx, tier):
         W.setup_abbrev(d)
         W.rule_W_STAT(ctx, d, paths)
         W.rule_W_INFO(ctx, d)
+        W.rule_W_STATE(ctx, d, keys=('maxsize',))      # info().maxsize is the configured bound
         W.rule_W_CLEAR(ctx, d)
         if d.name == 'inf_cache':
             _sample_paths(ctx, d, paths, lambda o: o.kind == 'return', 2)
@@ -205,6 +207,7 @@ def check_C12(ctx, tier):
         W.setup_abbrev(d)
         W.rule_W_KEY(ctx, d, paths)
         W.rule_W_ARGS(ctx, d, paths)
+        W.rule_W_NEW(ctx, d, parts=('forward',), only=('tol', 'deep'))     # maxsize=0/None dispatch keeps the rounding settings
     RR.rule_W_KEY_keygen(ctx, ctx.repo)
     RR.rule_R_GUARD_STR_KW(ctx, ctx.repo)
     RR.rule_R_NONE(ctx, ctx.repo)
@@ -238,6 +241,7 @@ def check_C03(ctx, tier):
     A.rule_A_EFF(ctx, ctx.repo, cache)
     A.rule_A_KEYERR(ctx, ctx.repo, cache)
     A.rule_A_EQ(ctx, ctx.repo, cache)
+    A.rule_A_RED_COPY(ctx, ctx.repo, cache, parts=('copy',))     # copy(name) yields an archive opened with the same settings
     A.rule_A_PUBFAIL(ctx, ctx.repo, cache)
     A.rule_A_VIS_STAGE(ctx, ctx.repo, cache)
     S.rule_S_PLAIN_EFF(ctx, ctx.repo)
